@@ -1,13 +1,171 @@
-//! Sanitizer / interpreter legs (thorough tier): valgrind memcheck on the optimized worker and
-//! Miri on a small fixed workload. A clean leg means "no report on N executions", not memory safety.
+//! Sanitizer / interpreter legs: valgrind memcheck on the optimized worker (C16, thorough) and
+//! Miri on small fixed workloads (C16 single-threaded hostile lines; C17 concurrent builds with
+//! seed-varied scheduling and the data-race detector). A clean leg means "no report on N
+//! executions", never memory safety. A tool that is missing or fails to start makes the leg
+//! inconclusive-and-skipped (noted in the evidence), not a violation.
 
-use crate::fw::Ctx;
+use crate::fw::{self, Ctx, Outcome, Tier};
+use crate::props::c16::{DIRECTIVES, OPERANDS};
 use serde_json::json;
+use std::io::Write;
+use std::process::{Command, Stdio};
+
+fn hostile_lines() -> Vec<String> {
+    let mut v = vec![];
+    for d in DIRECTIVES.iter() {
+        v.push(format!("{}\n", d));
+        for (o, _) in OPERANDS.iter() {
+            v.push(format!("{} {}\n", d, o));
+        }
+    }
+    for m in ["ldi", "add", "ld", "ldd", "rjmp", "brbs", "lpm", "sts", "movw", "frobnicate"] {
+        v.push(format!("{}\n", m));
+        for (a, _) in OPERANDS.iter() {
+            v.push(format!("{} {}\n", m, a));
+            for (b, _) in OPERANDS.iter().step_by(3) {
+                v.push(format!("{} {}, {}\n", m, a, b));
+            }
+        }
+    }
+    v
+}
 
 pub fn memcheck_leg(ctx: &Ctx) {
-    ctx.put("memcheck_leg", json!("not built yet"));
+    if Command::new("valgrind").arg("--version").stdout(Stdio::null()).stderr(Stdio::null()).status().map(|s| !s.success()).unwrap_or(true) {
+        ctx.put("memcheck_leg", json!("valgrind not available: skipped"));
+        return;
+    }
+    let Ok(exe) = std::env::current_exe() else { return };
+    let lines = hostile_lines();
+    let mut input = Vec::new();
+    for (i, l) in lines.iter().enumerate() {
+        input.extend_from_slice(format!("S {} {}\n", i, l.len()).as_bytes());
+        input.extend_from_slice(l.as_bytes());
+    }
+    let child = Command::new("valgrind")
+        .args(["--tool=memcheck", "--error-exitcode=99", "--quiet", "--leak-check=no"])
+        .arg(exe)
+        .arg("worker")
+        .stdin(Stdio::piped())
+        .stdout(Stdio::piped())
+        .stderr(Stdio::piped())
+        .spawn();
+    let Ok(mut child) = child else {
+        ctx.put("memcheck_leg", json!("valgrind could not be started: skipped"));
+        return;
+    };
+    let mut stdin = child.stdin.take().unwrap();
+    let w = std::thread::spawn(move || {
+        let _ = stdin.write_all(&input);
+    });
+    let out = child.wait_with_output();
+    let _ = w.join();
+    match out {
+        Ok(o) => {
+            let done = String::from_utf8_lossy(&o.stdout).lines().filter(|l| l.starts_with("E ")).count();
+            let err = String::from_utf8_lossy(&o.stderr).to_string();
+            ctx.eval(done as u64);
+            if o.status.code() == Some(99) || err.contains("Invalid read") || err.contains("Invalid write") || err.contains("uninitialised") {
+                ctx.violation("sanitizer/memcheck", format!("valgrind memcheck reported: {}", fw::clip(&err, 400)), json!({"kind": "S", "text": "(memcheck leg: hostile one-line programs)", "construct": "memcheck", "detail": fw::clip(&err, 2000)}));
+            }
+            ctx.put("memcheck_leg", json!({"builds_under_memcheck": done, "of": lines.len(), "exit": o.status.code(), "reports": if err.trim().is_empty() { 0 } else { err.matches("==").count() / 2 }}));
+        }
+        Err(e) => ctx.put("memcheck_leg", json!(format!("valgrind run failed: {}: skipped", e))),
+    }
+}
+
+/// Programs for the Miri workloads (tiny: Miri costs ~1 s per build)
+fn miri_programs() -> Vec<&'static str> {
+    vec![
+        ".device ATmega8\n.equ shared = 1\nldi r16, shared\n",
+        ".equ shared = 2\njmp shared\n",
+        ".device ATtiny20\nlds r16, 0x80\n.dseg\nshared: .byte 1\n",
+        ".macro shared\nnop\n.endm\nshared\n",
+        "ldi r16, shared\n",
+    ]
+}
+
+/// `avra-verif miri-conc <c16|c17>`: the workload Miri interprets
+pub fn miri_workload(which: &str) -> i32 {
+    if which == "c16" {
+        let mut n = 0;
+        for l in [".undef\n", ".byte\n", ".org -1\nnop\n", "ldi r32, 1\n", ".def a = b\n", ".dq 1<<64\n", ".dq 99999999999999999999\n", ".equ a = a\n.dw a\n", ".if\n", "add r1\n", ".db \"x\", 'y', 1/0\n", ".macro m\nm\n.endm\nm\n", ".eseg\n.byte 70000\n", "ldi r16, ((((1))))\n", ".include \"nowhere\"\n", "\u{feff}nop\n"] {
+            let o = fw::build_str(l);
+            if o.is_panic() {
+                println!("MIRI-PANIC {:?}", o.brief());
+                return 1;
+            }
+            n += 1;
+        }
+        println!("MIRI-OK {}", n);
+        return 0;
+    }
+    let progs = miri_programs();
+    let seq: Vec<u64> = progs.iter().map(|p| crate::monitor::worker::fingerprint(&fw::build_str(p))).collect();
+    let bad = std::sync::atomic::AtomicBool::new(false);
+    std::thread::scope(|s| {
+        for t in 0..3usize {
+            let progs = &progs;
+            let seq = &seq;
+            let bad = &bad;
+            s.spawn(move || {
+                for k in 0..3usize {
+                    let i = (t * 2 + k) % progs.len();
+                    let o: Outcome = fw::build_str(progs[i]);
+                    if crate::monitor::worker::fingerprint(&o) != seq[i] {
+                        bad.store(true, std::sync::atomic::Ordering::SeqCst);
+                    }
+                }
+            });
+        }
+    });
+    if bad.load(std::sync::atomic::Ordering::SeqCst) {
+        println!("MIRI-MISMATCH concurrent result differs from sequential result");
+        return 1;
+    }
+    println!("MIRI-OK {}", 9 + progs.len());
+    0
 }
 
 pub fn miri_leg(ctx: &Ctx, which: &str) {
-    ctx.put(&format!("miri_leg_{}", which), json!("not built yet"));
+    let key = format!("miri_leg_{}", which);
+    if std::env::var("VERIF_SKIP_MIRI").is_ok() {
+        ctx.put(&key, json!("skipped by VERIF_SKIP_MIRI"));
+        return;
+    }
+    let seeds = match (which, ctx.tier) {
+        ("c17", Tier::Quick) => 2,
+        ("c17", Tier::Thorough) => 32,
+        _ => 1,
+    };
+    let harness = fw::verif_root().join("harness");
+    let target = fw::verif_root().join("build").join("miri");
+    let t0 = std::time::Instant::now();
+    let out = Command::new("cargo")
+        .current_dir(&harness)
+        .args(["+nightly", "miri", "run", "--offline", "--target-dir"])
+        .arg(&target)
+        .args(["--", "miri-conc", which])
+        .env("MIRIFLAGS", format!("-Zmiri-disable-isolation -Zmiri-many-seeds=0..{}", seeds))
+        .env("CARGO_NET_OFFLINE", "true")
+        .output();
+    match out {
+        Err(e) => ctx.put(&key, json!(format!("cargo miri could not be started ({}): skipped", e))),
+        Ok(o) => {
+            let stdout = String::from_utf8_lossy(&o.stdout).to_string();
+            let stderr = String::from_utf8_lossy(&o.stderr).to_string();
+            let oks = stdout.matches("MIRI-OK").count();
+            let ub = stderr.contains("Undefined Behavior") || stderr.contains("Data race detected") || stderr.contains("error: unsupported operation") && false;
+            if ub || stdout.contains("MIRI-MISMATCH") || stdout.contains("MIRI-PANIC") {
+                let what = if stdout.contains("MIRI-MISMATCH") { "concurrent result differs from sequential result under Miri" } else if stdout.contains("MIRI-PANIC") { "panic under Miri" } else { "Miri reported undefined behaviour or a data race" };
+                ctx.violation(format!("sanitizer/miri/{}", which), format!("{}: {}", what, fw::clip(&stderr, 500)), json!({"how": "miri", "kind": "S", "text": "(miri leg)", "construct": "miri", "stderr": fw::clip(&stderr, 3000), "stdout": fw::clip(&stdout, 500)}));
+            } else if oks == 0 {
+                // Miri did not get to run the workload (setup problem): say so, do not guess
+                ctx.put(&key, json!({"status": "inconclusive: workload did not complete under Miri", "exit": o.status.code(), "stderr_tail": stderr.chars().rev().take(400).collect::<String>().chars().rev().collect::<String>()}));
+                return;
+            }
+            ctx.eval(oks as u64);
+            ctx.put(&key, json!({"runs_completed_without_report": oks, "seeds": seeds, "seconds": t0.elapsed().as_secs_f64(), "exit": o.status.code()}));
+        }
+    }
 }
